@@ -21,8 +21,11 @@ type symBool struct{ t *Term }
 // symStr is an opaque string (text derived from symbolic values: error texts,
 // event attributes, logs).  Only concatenation and storing are supported.
 type symStr struct {
-	id   int
-	desc string
+	id    int
+	desc  string
+	kind  string // "", "int" (decimal text of t), "hex" (hex text of bytes)
+	t     *Term
+	bytes []value
 }
 
 // abort is an engine-level termination of the current path.  It is never
